@@ -8,7 +8,7 @@
 //!      the replica by new_with_raw_value(raw_value()); the two must stay indistinguishable.
 
 use crate::emit::builder_args;
-use crate::layout::{Hex, Layout};
+use crate::layout::{Hex, Kind, Layout};
 use crate::model;
 use crate::ops::{Case, Op, Shape};
 use crate::prng::mask;
@@ -114,6 +114,10 @@ pub struct RunStats {
     pub operator_ops_attempted: u64,
     pub operator_ops_supported: u64,
     pub oob_writes_returned_normally: u64,
+    /// new_with_raw_value(r).raw_value() != r seen at an Init (C06's business): counted, and the
+    /// history goes on from the value the object reports ("starting from any value")
+    pub setup_anomalies: u64,
+    pub setup_anomaly_example: Option<String>,
     pub probes: [u64; N_PROBES],
     /// (state after step) values visited, for the distinct-state measure
     pub states: Vec<u128>,
@@ -121,7 +125,7 @@ pub struct RunStats {
 
 pub enum Outcome {
     Pass(RunStats),
-    /// new_with_raw_value(r).raw_value() != r: C06's business, not C11's/C12's; run skipped
+    /// (no longer produced: a setup anomaly is counted in RunStats and the run continues)
     SetupAnomaly(String),
     /// the operation list is not executable (uninitialised slot, bad index): only arises while
     /// shrinking
@@ -410,6 +414,9 @@ impl<'a> Ctx12<'a> {
                 for i in 0..fd.count() {
                     let (bits, tag) = obj.read(j, i as usize);
                     let exp = model::read(want, fd, i);
+                    // a nested-bitfield getter hands the bits to Inner::new_with_raw_value(); what
+                    // can be observed of the result is that object's own raw_value()
+                    let exp = if fd.kind == Kind::Nested && fd.type_width.is_none() { obj.supplied(j, exp) } else { exp };
                     self.st.getter_comparisons += 1;
                     if bits != exp {
                         return Err(viol(
@@ -462,7 +469,10 @@ impl<'a> Ctx12<'a> {
                 let obj = (self.e.make)(raw.0);
                 let r = obj.raw();
                 if r != raw.0 {
-                    return Ok(Some(format!("setup-anomaly: new_with_raw_value({:#x}).raw_value() = {:#x}", raw.0, r)));
+                    self.st.setup_anomalies += 1;
+                    if self.st.setup_anomaly_example.is_none() {
+                        self.st.setup_anomaly_example = Some(format!("setup-anomaly: new_with_raw_value({:#x}).raw_value() = {:#x}", raw.0, r));
+                    }
                 }
                 self.model[*slot] = r;
                 self.prov[*slot] = vec![usize::MAX; 128];
@@ -487,8 +497,9 @@ impl<'a> Ctx12<'a> {
                     self.st.probes[14] += 1;
                     stale[*slot] = None;
                 }
+                let supplied = self.slots[*slot].as_ref().unwrap().supplied(*f, v.0);
                 self.slots[*slot].as_mut().unwrap().set(*f, *i as usize, v.0);
-                let mut after = model::write(before, &l.fields[*f], *i, v.0);
+                let mut after = model::write(before, &l.fields[*f], *i, supplied);
                 if l.fields[*f].names_a_bit_twice() {
                     // the bits of this element are whatever the real setter made of them; every
                     // other bit must be untouched
@@ -519,13 +530,14 @@ impl<'a> Ctx12<'a> {
                     self.st.probes[14] += 1;
                     stale[*src] = None;
                 }
+                let supplied = self.slots[*src].as_ref().unwrap().supplied(*f, v.0);
                 let new = self.slots[*src].as_ref().unwrap().with(*f, *i as usize, v.0);
                 // "the receiver itself is unchanged"
                 let r = self.slots[*src].as_ref().unwrap().raw();
                 if r != before && !model_oracle_off() {
                     return Err(viol("receiver-modified", step, *src, Some(*f), Some(*i), r, before, "with_ changed its receiver".into()));
                 }
-                let mut after = model::write(before, &l.fields[*f], *i, v.0);
+                let mut after = model::write(before, &l.fields[*f], *i, supplied);
                 if l.fields[*f].names_a_bit_twice() {
                     let m = l.fields[*f].bitmask(*i);
                     let real = new.raw();
@@ -568,6 +580,7 @@ impl<'a> Ctx12<'a> {
                 }
                 let (bits, tag) = self.slots[*slot].as_ref().unwrap().read(*f, *i as usize);
                 let exp = model::read(self.model[*slot], &l.fields[*f], *i);
+                let exp = if l.fields[*f].kind == Kind::Nested && l.fields[*f].type_width.is_none() { self.slots[*slot].as_ref().unwrap().supplied(*f, exp) } else { exp };
                 if bits == exp && tag != expected_tag(&l.fields[*f], exp) && !model_oracle_off() {
                     return Err(viol("getter-mismatch", step, *slot, Some(*f), Some(*i), tag as u128, expected_tag(&l.fields[*f], exp) as u128, "explicit read: wrong Ok/Err for these bits".into()));
                 }
@@ -679,6 +692,10 @@ fn merge_stats(a: &mut RunStats, b: &RunStats) {
     a.operator_ops_attempted += b.operator_ops_attempted;
     a.operator_ops_supported += b.operator_ops_supported;
     a.oob_writes_returned_normally += b.oob_writes_returned_normally;
+    a.setup_anomalies += b.setup_anomalies;
+    if a.setup_anomaly_example.is_none() {
+        a.setup_anomaly_example = b.setup_anomaly_example.clone();
+    }
     for i in 0..N_PROBES {
         a.probes[i] += b.probes[i];
     }
